@@ -11,6 +11,9 @@ import json, os, concurrent.futures
 from vlib import Infra
 
 
+MC_ENABLED = True
+
+
 def run_scenario(ctx, name, salt, seconds):
     res, out, rc = ctx.go_test("internal/aggregator", "TestVerifC01",
                                env={"VERIF_C01_SCENARIO": name, "VERIF_C01_SALT": salt, "VERIF_C01_SECONDS": seconds},
@@ -25,8 +28,6 @@ def consts_module(evs):
     for e in evs:
         if "sec" in e:
             secs.add(e["sec"])
-        if e["ev"] == "Stored":
-            secs.update(e["secs"])
         if e["ev"] == "AggStart":
             rep[e["inst"]] = e["rep"]
     fn = " @@ ".join('"%s" :> %d' % kv for kv in sorted(rep.items()))
@@ -72,9 +73,12 @@ def validate(ctx, name, salt, res):
 def run(ctx):
     th = ctx.thorough
     # design-level model checking
-    if os.path.exists(os.path.join(ctx.root, "specs", "ConveyorMC.tla")):
-        mc = ctx.tlc("ConveyorMC", "Conveyor_mc_big.cfg" if th else "Conveyor_mc.cfg", timeout=3000 if th else 600, coverage=th)
-        ctx.require_model_ok(mc, "Conveyor design invariants")
+    mcs = []
+    if MC_ENABLED:
+        # safety (time passes freely) and progress (urgent time, bounded liveness) configurations
+        cfgs = ["Conveyor_mc_2s.cfg", "Conveyor_progress_big.cfg"] if th else ["Conveyor_mc.cfg", "Conveyor_progress.cfg"]
+        mcx = concurrent.futures.ThreadPoolExecutor(max_workers=2)
+        mcs = [mcx.submit(ctx.tlc, "ConveyorMC", c, workers=6, timeout=3400 if th else 900, coverage=False) for c in cfgs]
     scen = [("scripted", 0, 30)]
     if th:
         scen += [("random", ctx.seed * 100 + k, 40) for k in range(7)]
@@ -85,6 +89,8 @@ def run(ctx):
     with concurrent.futures.ThreadPoolExecutor(max_workers=4) as ex:
         futs = [ex.submit(run_scenario, ctx, *sc) for sc in scen]
         results = [f.result() for f in futs]
+    for f in mcs:
+        ctx.require_model_ok(f.result(), "Conveyor design layer")
     steps = 0
     for name, salt, res in results:
         ok += validate(ctx, name, salt, res)
@@ -93,6 +99,7 @@ def run(ctx):
     ctx.ev.add_impl("cluster runs accepted by ConveyorTrace", ok, steps=steps, scenarios=len(scen))
     ctx.ev.assume("in-process cluster: aggregator restart = real shutdown sequence (graceful) or closing the RPC "
                   "server with its storage endpoint dead (crash-like); agent kill is not in the property's fault list")
-    ctx.ev.assume("rows of a second are recognised in insert bodies by a marker row added from the agent's "
-                  "before-flush callback; seconds without marker are not constrained")
+    ctx.ev.assume("rows of a second are recognised in insert bodies by marker rows (unique id in a tag) added from the agent's "
+                  "before-flush callback; the agent hook APrep reports which marker ids each flushed bucket really carries; "
+                  "seconds without marker rows are not constrained")
     ctx.ev.assume("eventual delivery is checked as: every marked second is inserted within 120 s after all faults healed")
